@@ -32,7 +32,8 @@ class Case:
 
     def replay(self):
         return {"fn": self.fn, "args_hex": [hexz(a) for a in self.margs] if self.margs is not None else None,
-                "desc": small(self.desc) if self.margs is None else None, "prec": self.prec, "rnd": self.rnd}
+                "desc": small(self.desc) if (self.margs is None or self.fn.startswith("from_str")) else None,
+                "prec": self.prec, "rnd": self.rnd}
 
 
 def r2i(r):
